@@ -33,7 +33,7 @@ m = {
         "guard": "cargo feature `verif` of programs/whirlpool (off by default)",
         "enable": "the harness depends on whirlpool by path with features = [\"verif\"] (cargo build --release --offline --features verif in /verif/harness)",
         "baseline_off_cmd": "cd /repo && cargo nextest run --workspace --no-fail-fast --tool-config-file pb:/w/lib/nextest.toml --profile pb --test-threads 8 --offline",
-        "source_commits": ["ea6bd0b"],
+        "source_commits": ["ea6bd0b", "09915d8"],
         "add_only": True,
     },
     "engines": [
